@@ -34,7 +34,9 @@ def main():
         elif m.get('caught'):
             verdict = 'VIOLATION no-failing-input-found'
         else:
-            verdict = 'MISSED'
+            others = [f"{k} ({v.get('signature')})" for k, v in sorted((m.get('other_checks') or {}).items())
+                      if v.get('rc') and isinstance(v.get('signature'), str)]
+            verdict = 'MISSED' + (f" by {m['property']}; caught by {', '.join(others)}" if others else '')
         fv = m.get('first_verdict')
         if isinstance(fv, str):
             first = 'MISSED' if fv.upper().startswith('MISSED') else fv[:40]
